@@ -6,7 +6,10 @@ A *document description* `h` is plain JSON:
    "layers": [{"kind": K, "name": N, "parents": [index …], "insts": [<inst> …]} …]}   # parents have smaller indices
   <spec entry> = ["S", id, short_name, default] | ["C", id, short_name, [<spec entry> …], null | <value list>]
   <inst>       = {"tag": t, "id": comparam id, "doc": subset short name, "proto": null | str,
-                  "form": "VALUE"|"SIMPLE-VALUE"|"COMPLEX-VALUE", "value": str | nested list of str}
+                  "form": "VALUE"|"SIMPLE-VALUE"|"COMPLEX-VALUE", "value": str | nested list of str,
+                  optional "stack": null | str (PROT-STACK-SNREF), optional "desc": null | str (DESC)}
+  The optional qualifiers `stack` and `desc` are not part of the override key of the property ("per parameter and
+  protocol"); they are rendered into the XML and checked on the raw objects, but not forwarded to the model.
 """
 import math
 import struct
@@ -114,8 +117,11 @@ def render_inst(c):
         v = f"<COMPLEX-VALUE>{render_values(c['value'])}</COMPLEX-VALUE>"
     else:
         v = f"<{c['form']}>{esc(c['value'])}</{c['form']}>" if c["value"] != "" else f"<{c['form']}/>"
+    # schema order: value, DESC, PROTOCOL-SNREF, PROT-STACK-SNREF
+    d = f'<DESC><p>{esc(c["desc"])}</p></DESC>' if c.get("desc") is not None else ""
     p = f'<PROTOCOL-SNREF SHORT-NAME="{c["proto"]}"/>' if c["proto"] is not None else ""
-    return f'<COMPARAM-REF ID-REF="{c["id"]}" DOCREF="{c["doc"]}" DOCTYPE="COMPARAM-SUBSET">{v}{p}</COMPARAM-REF>'
+    p += f'<PROT-STACK-SNREF SHORT-NAME="{c["stack"]}"/>' if c.get("stack") is not None else ""
+    return f'<COMPARAM-REF ID-REF="{c["id"]}" DOCREF="{c["doc"]}" DOCTYPE="COMPARAM-SUBSET">{v}{d}{p}</COMPARAM-REF>'
 
 
 def render_layers(h):
@@ -212,6 +218,12 @@ def observe(h, db):
             by_obj[id(o)] = c["tag"]
             if (o.spec_ref.ref_id, o.protocol_snref, o.value) != (c["id"], c["proto"], c["value"]):
                 problems.append(("raw-parse", c["tag"], repr((o.spec_ref.ref_id, o.protocol_snref, o.value))))
+            try:
+                got_q = (o.prot_stack_snref, o.description is not None)
+            except Exception as e:
+                got_q = "foreign:" + type(e).__name__
+            if got_q != (c.get("stack"), c.get("desc") is not None):
+                problems.append(("raw-qualifier", c["tag"], repr(got_q)))
     protos = protos_of(h)
     names = names_of(h)
     prot_layers = {L["name"] for L in h["layers"] if L["kind"] == "PROTOCOL"}
